@@ -804,9 +804,13 @@ def run_suite(pid, suite, rng, tier, profiles, workdir, changed):
             sub = random.Random(f'{rng.random()}-{rnd}')
             for c in suite['gen'](sub, tier, changed):
                 k = case_key(c)
-                if k not in seen:
+                # suites that compare cases pairwise (C07: the same program with and without order switches) keep
+                # every case of a round, with the references between them renamed consistently
+                if k not in seen or suite.get('post'):
                     seen.add(k)
                     c.id = f'{c.id}~{rnd}'
+                    if 'pair' in c.meta:
+                        c.meta['pair'] = f"{c.meta['pair']}~{rnd}"
                     cases.append(c)
     corpus = load_corpus(pid)
     cases = corpus + cases
